@@ -8,6 +8,7 @@ package main
 
 import (
 	"bufio"
+	"encoding/hex"
 	"encoding/json"
 	"flag"
 	"fmt"
@@ -314,7 +315,15 @@ func main() {
 		}
 	}()
 	c.start = time.Now()
-	if parts := cStrs(rcase, "crash_parts"); c.replaying && len(parts) > 0 {
+	parts := cStrs(rcase, "crash_parts")
+	if hp := cStrs(rcase, "crash_parts_hex"); len(hp) > 0 {
+		parts = nil
+		for _, h := range hp {
+			b, _ := hex.DecodeString(h)
+			parts = append(parts, string(b))
+		}
+	}
+	if c.replaying && len(parts) > 0 {
 		if d.ReplayCrash == nil {
 			fmt.Fprintln(os.Stderr, "check has no crash replay")
 			os.Exit(4)
@@ -351,9 +360,18 @@ func jstr(v interface{}) string {
 
 // helpers to read replayed cases
 func cStr(cs Case, k string) string {
+	// strings that are not valid UTF-8 do not survive JSON: they travel hex-encoded under <key>_hex
+	if h, ok := cs[k+"_hex"].(string); ok {
+		if b, err := hex.DecodeString(h); err == nil {
+			return string(b)
+		}
+	}
 	s, _ := cs[k].(string)
 	return s
 }
+
+// hx is the hex form stored next to a raw string in a replayable case.
+func hx(s string) string { return hex.EncodeToString([]byte(s)) }
 func cInt(cs Case, k string) int {
 	f, _ := cs[k].(float64)
 	return int(f)
